@@ -6,7 +6,7 @@ DEFAULT = dict(Stacks="StacksAll", Outcomes="Out13", TagOps="TagOps2", Times='{"
                MaxTagOps=0, MaxTimes=0, AllowStop="FALSE", AllowSetFF="FALSE", AllowSkipNoStart="FALSE", AllowDone="FALSE",
                AllowProgress="FALSE", PreFF="{FALSE}", Coded="{}")
 INVS = ("Verdict", "TagsScoped", "TagsObserved", "ExactlyOnce", "NoUpgrade")
-PROPS = ("FailFastStops", "FailFastNotEarlier", "StopReaches")
+PROPS = ("FailFastStops", "FailFastNotEarlier", "StopReaches", "DeliveredStable")
 
 
 def cfg(name, mode, **kw):
@@ -62,4 +62,7 @@ cfg("rs_simSkip.cfg", "sim", Outcomes="Out2", TagOps="TagOpsAll", MaxCalls=20, M
 # --- the known deviations of the code, switched on: TLC must find the counterexample (non-vacuity) ------------
 cfg("rs_codedFF.cfg", "mc", Stacks="StMulti", Outcomes="Out2", PreFF="{TRUE}", Coded='{"multiClearsFF"}', MaxTests=1, MaxCalls=5)
 cfg("rs_codedTags.cfg", "mc", Stacks="StacksCore", Outcomes="Out1", MaxTagOps=1, AllowSkipNoStart="TRUE", Coded='{"stopTestNullsTags"}', MaxCalls=6)
+cfg("rs_codedLive.cfg", "mc", Stacks="StStream", Outcomes="Out1", MaxTagOps=1, MaxTests=1, Coded='{"liveTagSets"}', MaxCalls=6,
+    invs=("ExactlyOnce",), props=("DeliveredStable",))
+cfg("rs_codedTFR2.cfg", "mc", Stacks="StTFR", Outcomes="Out1", MaxTagOps=1, MaxTests=2, Coded='{"tfrPostOutcomeTagsGlobal"}', MaxCalls=9)
 cfg("rs_codedTFR.cfg", "mc", Stacks="StTFR", Outcomes="Out1", MaxTagOps=1, MaxRuns=2, MaxTests=1, Coded='{"tfrKeepsGlobalTags"}', MaxCalls=8)
